@@ -390,8 +390,8 @@ class World:
             sn = self.snapshot(g.idx)
             for kind, detail in sn.problems:
                 tags = set(props_struct) | {'C02'}
-                if kind == 'I-order':
-                    tags |= {'C14'}
+                if kind == 'I-order' or 'terminal' in detail:
+                    tags |= {'C14'}     # the order / the place of the terminal
                 self.fail(kind, f'M{g.idx} {where}: {detail}', tags)
             # I-den on handles
             for s in self.slots:
